@@ -73,7 +73,7 @@ def points_roundtrip(n):
                'delta in the middle of the run crosses the byte/word boundary) and concrete step d in {1,255,256}; n around the limits '
                '127/128 (count header width) and 128/129 (run length limit)',
         shims=['array', 'bytearray', 'struct'], quick=[dict(n=n, d=d) for n in (127, 128, 129) for d in (1, 256)],
-        thorough=[dict(n=n, d=d) for n in (2, 126, 127, 128, 129, 130, 200, 255, 256, 257) for d in (1, 255, 256)])
+        thorough=[dict(n=n, d=d) for n in (2, 126, 127, 128, 129, 130, 200, 255, 256, 257) for d in (1, 255, 256) if d * (n - 1) <= 0xFFFF])
 def points_family(n, d):
     start = V.int('start', 0, 300)
     gap = V.int('gap', 0, 400)
